@@ -1,5 +1,57 @@
-From CssV Require Import Base Gen.SelConsts Selector SelectorFacts.
+(* C16 -- selector specificity equals the CSS definition.
+   Model: CssV.Selector (pre-pass + token machine of Selector._setSelectorText over the regenerated constants).
+   The selector AST of Selector.v carries every layout choice (whitespace / comment tokens at every place the
+   grammar allows them), so quantifying over `sel` quantifies over all selectors of the grammar AND all layouts. *)
+From CssV Require Import Base Gen.SelConsts Tokenizer Selector SelectorFacts.
+
+(* the regenerated test tables are exactly Python's substring / equality tests on the regenerated strings *)
 Theorem expected_tests_are_substring_tests :
   forallb (fun nf => forallb (fun e => Bool.eqb (snd nf e) (substr (fst nf) (exp_str e))) all_exp) in_tests = true.
 Proof. exact in_tests_are_substring_tests. Qed.
 Print Assumptions expected_tests_are_substring_tests.
+
+(* the pre-pass glues a rendered selector exactly into the intended synthetic tokens *)
+Theorem prepass_glues_rendering :
+  forall ns sel, Declared ns sel -> prepass (render sel) = g_selector sel.
+Proof. exact prepass_render. Qed.
+Print Assumptions prepass_glues_rendering.
+
+(* main theorem: every selector of the grammar, in every layout, with declared prefixes, is accepted and its
+   reported specificity is (0, #ids, #classes+attributes+pseudo-classes, #types+pseudo-elements) *)
+Theorem specificity_correct :
+  forall ns sel, Declared ns sel ->
+    wellformed (run ns (prepass (render sel))) = true /\
+    spec (run ns (prepass (render sel))) =
+      (0, ids sel, classes_attrs_pseudoclasses sel, types_pseudoelements sel)%nat.
+Proof. exact specificity_correct_lemma. Qed.
+Print Assumptions specificity_correct.
+
+(* non-vacuity:  ` p|a#i.c[q|x ~= "v"]:hover:not( :lang(en) ) /**/ > *::first-line `  is Declared, and evaluates *)
+Definition ex_ns : ns_map := [(s "p", s "u:p"); (s "q", s "u:q")].
+Definition ex_sel : selector :=
+  mkSel [WS (s " ")]
+    (mkCompound (HType (NsP (s "p")) (s "a"))
+       [([], SHash (s "#i")); ([], SClass (s "c"));
+        ([], SAttr (mkAttr [] (NsP (s "q")) (s "x") [WS (s " ")] (Some (OpIncl, [WS (s " ")], AvS [34; 118; 34]%N, []))));
+        ([], SPseudo (PsId false (s "hover")));
+        ([], SNot [WS (s " ")] (NaPseudo (PsFn false (s "lang") [] [(EId (s "en"), [])])) [WS (s " ")])]
+       None)
+    [(CChild [WS (s " "); WC (s "/**/"); WS (s " ")] [WS (s " ")],
+      mkCompound (HUniv NsDefault) [] (Some ([], PsId true (s "first-line"))))]
+    [WS (s " ")].
+Example specificity_correct_nonvacuous :
+  Declared ex_ns ex_sel /\ spec (run ex_ns (prepass (render ex_sel))) = (0, 1, 4, 2)%nat.
+Proof. split; vm_compute; reflexivity. Qed.
+
+(* the two defects repaired in /repo (fixes/C16-*.diff), as facts about the current model *)
+Example functional_pseudo_inside_not_accepted :   (* a:not(:lang(en)) *)
+  select [] [(s "IDENT", s "a"); (s "CHAR", s ":"); (s "FUNCTION", s "not("); (s "CHAR", s ":");
+             (s "FUNCTION", s "lang("); (s "IDENT", s "en"); (s "CHAR", s ")"); (s "CHAR", s ")")]
+  = Some (Accepted 0 1 1 [(I_type_selector, VPair UNone (s "a")); (I_negation_start, VStr (s ":not("));
+                          (I_pseudo_class, VStr (s ":lang(")); (I_IDENT, VStr (s "en"));
+                          (I_function_end, VStr (s ")")); (I_negation_end, VStr (s ")"))]).
+Proof. vm_compute. reflexivity. Qed.
+Example comment_then_space_inside_function_accepted :   (* a:nth-child(/*c*/ 2) *)
+  spec (select [] [(s "IDENT", s "a"); (s "CHAR", s ":"); (s "FUNCTION", s "nth-child("); (s "COMMENT", s "/*c*/");
+                   (s "S", s " "); (s "NUMBER", s "2"); (s "CHAR", s ")")]) = (0, 0, 1, 1)%nat.
+Proof. vm_compute. reflexivity. Qed.
